@@ -1114,7 +1114,7 @@ def run(ctx, args):
     )
     ctx.assume("real arithmetic: the conjugation convention of the adjoint is not modelled (all values are rational)")
     ctx.assume("a Form is assembled on a domain of measure 1 on which every function is constant: integral = value of the integrand with unit vectors for the arguments (vf.sem.Evaluator)")
-    ctx.assume("argument numbering after an action is the one action.py documents: the remaining arguments keep their numbers; compositions whose remaining numbers would not be strictly increasing are outside the tested class; an identity operand (Coargument/Argument) carries the number of the slot it replaces")
+    ctx.assume("argument numbering after an action is the one action.py documents: the remaining arguments keep their numbers; compositions whose remaining numbers would not be strictly increasing are outside the tested class; an identity operand (Coargument/Argument), also as a component of a sum the action distributes over, carries the number of the slot it replaces")
     ctx.assume("adjoint is applied to base forms whose two arguments are numbered 0, 1; derivative of an Action is tested when both operands are 1-forms / coefficients (the documented Leibniz rule); derivative of an Adjoint, a second derivative of an Action and -f, 2*f as right operand of an action are refused by ufl by design and excluded by the guards")
     ctx.assume("coefficients: must <= reported <= may, where must = coefficients whose perturbation changes the predicted tensor and may = coefficients occurring in the construction (zero elimination may legitimately drop coefficients)")
     ctx.assume("a Form whose integrands are all 0 (0*F, derivative of a form w.r.t. a coefficient it does not contain) carries no arguments in classic UFL: only its value (zero) is compared, and a composition ufl refuses because of such an operand is counted, not judged")
